@@ -342,8 +342,8 @@ func c04Encoder(c *Ctx, h *hpHuff) {
 		nbytes := int64(-1)
 		for _, in := range flushIf.Block().Succs[0].Instrs {
 			if call, ok := in.(*ssa.Call); ok {
-				if b, ok := call.Call.Value.(*ssa.Builtin); ok && b.Name() == "append" && len(call.Call.Args) == 2 {
-					if sl, ok := call.Call.Args[1].(*ssa.Slice); ok {
+				if b, ok := call.Call.Value.(*ssa.Builtin); ok && b.Name() == "append" && len(BaselineArgs(&call.Call)) == 2 {
+					if sl, ok := BaselineArgs(&call.Call)[1].(*ssa.Slice); ok {
 						if pt, ok := sl.X.Type().Underlying().(*types.Pointer); ok {
 							if at, ok := pt.Elem().Underlying().(*types.Array); ok {
 								nbytes = at.Len()
@@ -690,7 +690,7 @@ func c04Decoder(c *Ctx) {
 		why = fmt.Sprintf("%d WriteByte sites", len(wb))
 	}
 	for _, in := range wb {
-		arg := Term(in.(*ssa.Call).Call.Args[1])
+		arg := Term(BaselineArgs(&in.(*ssa.Call).Call)[1])
 		if !strings.HasSuffix(arg, ".sym") {
 			why = "WriteByte writes `" + arg + "`, not a leaf symbol"
 			break
